@@ -13,6 +13,9 @@ elif prop.endswith("c"):        # third round: seeds numbered from 6
 elif prop.endswith("d"):        # fourth round: seeds numbered from 9
     prop = prop[:-1]
     dst_k = str(int(k) + 8)
+elif prop.endswith("e"):        # fifth round: seeds numbered from 12
+    prop = prop[:-1]
+    dst_k = str(int(k) + 11)
 else:
     dst_k = k
 summary = sys.argv[5] if len(sys.argv) > 5 else ""
